@@ -1053,7 +1053,8 @@ pub fn run(_id: &str, cx: &mut Cx)
 	cx.report.rule = "model.parse.all: the real Parser and the Lean model (fed with the REAL Tokenizer's tokens, error and final position) on \
 (1) every depth-2 tree over all 18 node kinds as parent and as either child, (2) every binary-operator tree (all shapes, all operator assignments) \
 with up to 3 operators [quick: plus a 1/14 slice of the 4-operator trees; thorough: all 140000], (3) the same with neg/not/[..] inserted above any node, \
-(4) random programs (labels, directives, instructions; trees to depth 8) with minimal parentheses and random spacing/comments, (5) the same with redundant \
+(4) random programs (labels, directives, instructions; trees to depth 8) with minimal parentheses and random spacing/comments, (4') large inputs: nesting 40..520 deep \
+[thorough: ..1100] of each bracket kind and of unary operators, 40..520 calls/brackets side by side in one list, programs of 40..520 statements read by one parser, (5) the same with redundant \
 parentheses around random sub-expressions, (6) ill-formed inputs: token soup, token mutations, truncations, byte mutations. Oracle on the implementation \
 for (1)-(5): the parsed statements equal the generated ones (kind, name, argument trees in order) and each element's position is its first token's. \
 model.parse.render: the Lean rendering specification equals the harness renderer on every generated tree. \
@@ -1131,6 +1132,60 @@ non-trivial = at least one element or an error after more than one token; distin
 	run_cases(cx, &cases);
 	check_render(cx, &trees);
 	check_render_stmts(cx, &all_stmts);
+
+	// (4') large inputs: deep nesting of every bracket kind, wide argument lists, long programs parsed by ONE parser
+	{
+		let mut cases: Vec<Case> = Vec::new();
+		let mut trees: Vec<T> = Vec::new();
+		let leaf_of = |k: usize| -> T {if k % 3 == 0 {T::Const(k as i64)} else {T::Ident(format!("n{k}"))}};
+		let sizes: &[usize] = if thorough {&[40, 130, 255, 256, 257, 300, 520, 1100]} else {&[40, 255, 256, 257, 300, 520]};
+		for &n in sizes
+		{
+			// deep: one chain per wrapping node kind, and a mixed chain
+			for kind in 0..6
+			{
+				let mut t = leaf_of(n);
+				for d in 0..n
+				{
+					t = match if kind == 5 {d % 5} else {kind}
+					{
+						0 => T::Bin(1, Box::new(leaf_of(d)), Box::new(t)),          // a - (b - (c - …)): parentheses at every level
+						1 => T::Addr(Box::new(t)),
+						2 => T::Seq(vec![leaf_of(d), t]),
+						3 => T::Func(format!("f{}", d % 7), vec![t, leaf_of(d)]),
+						_ => if d % 2 == 0 {T::Neg(Box::new(t))} else {T::Not(Box::new(t))},
+					};
+				}
+				trees.push(t.clone());
+				cases.push(stmts_case(&[Stmt::Instruction("X".to_owned(), vec![t])], 0, 1 + (n % 2) as u8, "rt: deep nesting", &mut rng));
+			}
+			// wide: n calls / brackets side by side in one argument list, in one sequence, in one call
+			let many: Vec<T> = (0..n).map(|k| match k % 4
+			{
+				0 => T::Func(format!("g{}", k % 5), vec![leaf_of(k)]),
+				1 => T::Addr(Box::new(leaf_of(k))),
+				2 => T::Seq(vec![leaf_of(k)]),
+				_ => T::Bin(2, Box::new(T::Bin(0, Box::new(leaf_of(k)), Box::new(leaf_of(k + 1)))), Box::new(leaf_of(k + 2))),   // (a + b) * c
+			}).collect();
+			let calls: Vec<T> = (0..n).map(|k| T::Func(format!("h{}", k % 3), if k % 2 == 0 {vec![]} else {vec![leaf_of(k)]})).collect();
+			for t in [T::Seq(many.clone()), T::Func("wide".to_owned(), many.clone()), T::Seq(calls.clone())] {trees.push(t);}
+			cases.push(stmts_case(&[Stmt::Instruction("X".to_owned(), many.clone())], 0, 2, "rt: wide argument list", &mut rng));
+			cases.push(stmts_case(&[Stmt::Directive("d".to_owned(), vec![T::Seq(many.clone()), T::Func("wide".to_owned(), many)])], 0, 1, "rt: wide argument list", &mut rng));
+			cases.push(stmts_case(&[Stmt::Instruction("X".to_owned(), vec![T::Seq(calls.clone())]), Stmt::Instruction("Y".to_owned(), vec![T::Addr(Box::new(leaf_of(1)))])], 0, 2, "rt: wide argument list", &mut rng));
+			// long: n small statements, each with a call and a bracket, read by one parser
+			let stmts: Vec<Stmt> = (0..n).map(|k| match k % 5
+			{
+				0 => Stmt::Label(format!("l{k}")),
+				1 => Stmt::Directive(format!("d{}", k % 3), vec![T::Func("f".to_owned(), vec![leaf_of(k)]), T::Addr(Box::new(leaf_of(k)))]),
+				2 => Stmt::Instruction("X".to_owned(), vec![T::Func("g".to_owned(), vec![]), T::Seq(vec![leaf_of(k)])]),
+				3 => Stmt::Instruction("Y".to_owned(), vec![T::Bin(2, Box::new(T::Bin(0, Box::new(leaf_of(k)), Box::new(T::Func("h".to_owned(), vec![leaf_of(k)])))), Box::new(leaf_of(k)))]),
+				_ => Stmt::Instruction("Z".to_owned(), vec![]),
+			}).collect();
+			cases.push(stmts_case(&stmts, 0, 2, "rt: long program", &mut rng));
+		}
+		run_cases(cx, &cases);
+		check_render(cx, &trees);
+	}
 
 	// (6) ill-formed
 	let nill = if thorough {400_000} else {30_000};
